@@ -20,6 +20,19 @@ import (
 
 var errFault = errors.New("verif: injected I/O fault")
 
+// faultErrs: what the failing call returns. Every one of them is "an error other than end-of-file": the sentinel; a
+// stream cut short as an HTTP client or io.ReadFull reports it; the same wrapped; an error whose TEXT is "EOF"; a
+// closed pipe; a timeout (net.Error style: Timeout() and Temporary() true).
+type timeoutErr struct{}
+
+func (timeoutErr) Error() string   { return "i/o timeout" }
+func (timeoutErr) Timeout() bool   { return true }
+func (timeoutErr) Temporary() bool { return true }
+
+var faultErrs = []error{errFault, io.ErrUnexpectedEOF, fmt.Errorf("read tcp: %w", io.ErrUnexpectedEOF), errors.New("EOF"), io.ErrClosedPipe, timeoutErr{}}
+
+func faultErr(kind int) error { return faultErrs[kind%len(faultErrs)] }
+
 // faultReader delivers Data[:K] then fails. Shape 0: the failing call returns (0, err); shape 1:
 // the call that reaches offset K returns its bytes together with err. Chunk > 0 limits each read.
 type faultReader struct {
@@ -31,7 +44,11 @@ type faultReader struct {
 	pos      int64
 	SeekFail bool
 	failed   bool
+	after    int
+	ErrKind  int // index into faultErrs
 }
+
+const spinMark = "verif: the stream's Read was called 200000 more times after it had returned its error"
 
 func (r *faultReader) Read(p []byte) (int, error) {
 	if len(p) == 0 {
@@ -39,8 +56,14 @@ func (r *faultReader) Read(p []byte) (int, error) {
 	}
 	lim := int64(r.K)
 	if r.pos >= lim {
+		if r.failed {
+			// a reader that keeps asking after the error never returns: make that a result instead of a hang
+			if r.after++; r.after > 200000 {
+				panic(spinMark)
+			}
+		}
 		r.failed = true
-		return 0, errFault
+		return 0, faultErr(r.ErrKind)
 	}
 	n := int64(len(p))
 	if r.Chunk > 0 && n > int64(r.Chunk) {
@@ -56,7 +79,7 @@ func (r *faultReader) Read(p []byte) (int, error) {
 	r.pos += n
 	if r.Shape == 1 && r.pos == lim {
 		r.failed = true
-		return int(n), errFault
+		return int(n), faultErr(r.ErrKind)
 	}
 	return int(n), nil
 }
@@ -82,10 +105,16 @@ func (r *faultReader) Seek(off int64, whence int) (int64, error) {
 type faultWriter struct {
 	K       int
 	Shape   int
+	ErrKind int // index into writeErrs
 	n       int
 	tripped bool
 	buf     bytes.Buffer
 }
+
+// writeErrs: what the failing Write returns: the sentinel, a short write, a closed pipe, a full device, a timeout.
+var writeErrs = []error{errFault, io.ErrShortWrite, io.ErrClosedPipe, errors.New("no space left on device"), timeoutErr{}}
+
+func (w *faultWriter) err() error { return writeErrs[w.ErrKind%len(writeErrs)] }
 
 func (w *faultWriter) Write(p []byte) (int, error) {
 	if w.n+len(p) <= w.K {
@@ -94,13 +123,13 @@ func (w *faultWriter) Write(p []byte) (int, error) {
 		return len(p), nil
 	}
 	if w.Shape == 1 {
-		return 0, errFault
+		return 0, w.err()
 	}
 	if w.Shape == 2 {
 		// transient fault: exactly one Write fails (nothing accepted), later ones succeed again
 		if !w.tripped {
 			w.tripped = true
-			return 0, errFault
+			return 0, w.err()
 		}
 		w.n += len(p)
 		w.buf.Write(p)
@@ -109,7 +138,7 @@ func (w *faultWriter) Write(p []byte) (int, error) {
 	fit := w.K - w.n
 	w.n += fit
 	w.buf.Write(p[:fit])
-	return fit, errFault
+	return fit, w.err()
 }
 
 type ReadCase struct {
@@ -121,6 +150,7 @@ type ReadCase struct {
 	Chunk  int    `json:"chunk"`
 	Split  int    `json:"first_read_at_most,omitempty"`
 	Seek   bool   `json:"seek_fails,omitempty"`
+	Err    int    `json:"error_kind,omitempty"`
 }
 
 // ttmlRootEnd returns the offset just after the root element's end tag (the property's carve-out).
@@ -133,9 +163,12 @@ func ttmlRootEnd(b []byte) int {
 }
 
 func checkRead(rc ReadCase) (key, msg string, out uint64) {
-	r := &faultReader{Data: rc.Data, K: rc.K, Shape: rc.Shape, Chunk: rc.Chunk, Split: rc.Split, SeekFail: rc.Seek}
+	r := &faultReader{Data: rc.Data, K: rc.K, Shape: rc.Shape, Chunk: rc.Chunk, Split: rc.Split, SeekFail: rc.Seek, ErrKind: rc.Err}
 	s, err, pan := corpus.Read(rc.Format, r)
-	desc := fmt.Sprintf("%s (%d bytes), stream fails at offset %d (shape %d, chunk %d, seek-fails %v)", rc.Doc, len(rc.Data), rc.K, rc.Shape, rc.Chunk, rc.Seek)
+	desc := fmt.Sprintf("%s (%d bytes), stream fails with %q at offset %d (shape %d, chunk %d, seek-fails %v)", rc.Doc, len(rc.Data), faultErr(rc.Err), rc.K, rc.Shape, rc.Chunk, rc.Seek)
+	if strings.Contains(pan, spinMark) {
+		return "fault.read." + rc.Format + ".keeps-reading-after-the-error", desc + ": the reader ignores the error and polls the stream for ever", 0
+	}
 	if pan != "" {
 		return "fault.read." + rc.Format + ".panic", desc + ": reader panicked: " + pan, 0
 	}
@@ -222,6 +255,7 @@ type WriteCase struct {
 	Dest   string `json:"dest_format"`
 	K      int    `json:"fault_offset"`
 	Shape  int    `json:"shape"`
+	Err    int    `json:"error_kind,omitempty"`
 }
 
 func parseDoc(format string, data []byte) *astisub.Subtitles {
@@ -237,7 +271,7 @@ func checkWrite(wc WriteCase) (key, msg string, out uint64) {
 	if s == nil {
 		return "", "", 0
 	}
-	w := &faultWriter{K: wc.K, Shape: wc.Shape}
+	w := &faultWriter{K: wc.K, Shape: wc.Shape, ErrKind: wc.Err}
 	err, pan := corpus.Write(wc.Dest, s, w)
 	desc := fmt.Sprintf("%s written as %s, destination fails after %d bytes (shape %d)", wc.Doc, wc.Dest, wc.K, wc.Shape)
 	if pan != "" {
@@ -366,17 +400,23 @@ func run(c *core.Ctx) {
 		}
 		for k := 0; k <= end; k++ {
 			for shape := 0; shape < 2; shape++ {
-				for _, ch := range chunks {
-					if !c.Mine() {
-						continue
-					}
-					rc := ReadCase{Doc: d.Name, Format: d.Format, Data: d.Data, K: k, Shape: shape, Chunk: ch}
-					key, msg, out := checkRead(rc)
-					c.Record("read."+d.Format, out, core.Hash64(d.Name, fmt.Sprint(k, shape, ch)), func() interface{} {
-						return map[string]interface{}{"doc": d.Name, "len": len(d.Data), "fault_offset": k, "shape": shape, "chunk": ch}
-					})
-					if key != "" {
-						c.Violate("read", key, msg, rc, len(d.Data)*10+k)
+				for ci, ch := range chunks {
+					for ek := range faultErrs {
+						// quick: the other error kinds under whole-buffer delivery only (every offset, both shapes)
+						if ek > 0 && ci > 0 && c.Tier == core.Quick {
+							continue
+						}
+						if !c.Mine() {
+							continue
+						}
+						rc := ReadCase{Doc: d.Name, Format: d.Format, Data: d.Data, K: k, Shape: shape, Chunk: ch, Err: ek}
+						key, msg, out := checkRead(rc)
+						c.Record("read."+d.Format, out, core.Hash64(d.Name, fmt.Sprint(k, shape, ch, ek)), func() interface{} {
+							return map[string]interface{}{"doc": d.Name, "len": len(d.Data), "fault_offset": k, "shape": shape, "chunk": ch, "error": faultErr(ek).Error()}
+						})
+						if key != "" {
+							c.Violate("read", key, msg, rc, len(d.Data)*10+k+ek)
+						}
 					}
 				}
 			}
@@ -454,16 +494,22 @@ func run(c *core.Ctx) {
 					continue
 				}
 				for shape := 0; shape < 3; shape++ {
-					if !c.Mine() {
-						continue
-					}
-					wc := WriteCase{Doc: d.Name, Format: d.Format, Data: d.Data, Dest: dest, K: k, Shape: shape}
-					key, msg, out := checkWrite(wc)
-					c.Record("write."+dest, out, core.Hash64(d.Name, dest, fmt.Sprint(k, shape)), func() interface{} {
-						return map[string]interface{}{"doc": d.Name, "dest": dest, "output_len": L, "fault_offset": k, "shape": shape}
-					})
-					if key != "" {
-						c.Violate("write", key, msg, wc, L*10+k)
+					for ek := range writeErrs {
+						// quick: the other error kinds for the partial-acceptance shape only (every offset)
+						if ek > 0 && shape > 0 && c.Tier == core.Quick {
+							continue
+						}
+						if !c.Mine() {
+							continue
+						}
+						wc := WriteCase{Doc: d.Name, Format: d.Format, Data: d.Data, Dest: dest, K: k, Shape: shape, Err: ek}
+						key, msg, out := checkWrite(wc)
+						c.Record("write."+dest, out, core.Hash64(d.Name, dest, fmt.Sprint(k, shape, ek)), func() interface{} {
+							return map[string]interface{}{"doc": d.Name, "dest": dest, "output_len": L, "fault_offset": k, "shape": shape, "error": writeErrs[ek].Error()}
+						})
+						if key != "" {
+							c.Violate("write", key, msg, wc, L*10+k+ek)
+						}
 					}
 				}
 			}
@@ -529,7 +575,7 @@ func replay(sub string, raw json.RawMessage) (string, bool) {
 func init() {
 	core.Register(&core.Prop{
 		ID: "C18", Level: "fault_enumeration",
-		Rule: "reads: for every corpus document and EVERY offset k in 0..len (TTML: up to the end of the root element) the stream delivers k bytes and then fails with a sentinel error, in two shapes ((0,err) on the next call; the last bytes together with err) and under whole-buffer and 7-byte (thorough: 1,7,188,1024-byte) deliveries; oracle: a reader that reached the fault returns a non-nil error; over-long lines 65535..2^20 at three positions in srt/vtt/ssa: error or complete result; writes: for every parsed corpus document x every writer x every k in 0..len(output)-1 a destination that accepts k bytes then fails in three shapes (partial acceptance, rejection, a transient fault of exactly one Write call); oracle: non-nil error; fault-free run hands the complete output to the destination; file helpers: missing file, directory, a file whose first read fails (EIO), missing parent, path under a regular file, a destination that can be created but not written (/dev/full) x every extension; distinct = (document, offset, shape, delivery)",
+		Rule: "reads: for every corpus document and EVERY offset k in 0..len (TTML: up to the end of the root element) the stream delivers k bytes and then fails with each of six errors (a sentinel, io.ErrUnexpectedEOF bare and wrapped, an error whose text is EOF, a closed pipe, a timeout), in two shapes ((0,err) on the next call; the last bytes together with err) and under whole-buffer and 7-byte (thorough: 1,7,188,1024-byte) deliveries; oracle: a reader that reached the fault returns a non-nil error; over-long lines 65535..2^20 at three positions in srt/vtt/ssa: error or complete result; writes: for every parsed corpus document x every writer x every k in 0..len(output)-1 a destination that accepts k bytes then fails in three shapes (partial acceptance, rejection, a transient fault of exactly one Write call); oracle: non-nil error; fault-free run hands the complete output to the destination; file helpers: missing file, directory, a file whose first read fails (EIO), missing parent, path under a regular file, a destination that can be created but not written (/dev/full) x every extension; distinct = (document, offset, shape, delivery)",
 		Scope: map[core.Tier]string{
 			core.Quick:    "all corpus documents (hand-made + /repo/testdata) x every read offset x 2 shapes x 2 deliveries; 45 over-long-line documents; writes: every offset for hand-made documents and same-format testdata, block-structured offsets for cross-format testdata conversions; 42 file-helper cases",
 			core.Thorough: "reads with 5 deliveries and, for documents <=2000 bytes, every fault offset under every single-split delivery (len^2/2 executions per document); writes at every offset for every document x writer pair",
